@@ -323,10 +323,55 @@ theorem refuse_gap (s0 s1 : Shard) (r : List Shard) (h : s1.1 ≠ s0.2) : newTem
     · obtain ⟨u, hu, hs1, _, _⟩ := go_cons _ _ _ hh
       simp at hu hs1 h; rw [hu, hs1] at h; exact absurd rfl h
 
+/-- acceptance of a list implies acceptance (from some overall upper bound) of every suffix -/
+theorem go_suffix (pre l : List Shard) : ∀ ou, temporalGo ou (pre ++ l) = true → ∃ ou', temporalGo ou' l = true := by
+  induction pre with
+  | nil => intro ou h; exact ⟨ou, h⟩
+  | cons p pre ih =>
+    intro ou h
+    obtain ⟨_, _, _, _, hr⟩ := go_cons _ _ _ h
+    exact ih _ hr
+
+/-- **Refusals, anywhere in the list.** Wherever two consecutive shards `s0, s1` occur, construction succeeds only if `s0` has
+an upper bound and `s1` starts exactly there; so a gap, an overlap, a shard following an unbounded one, and a later shard
+without a lower bound are refused at every position, not only at the head. -/
+theorem accepted_consecutive (pre post : List Shard) (s0 s1 : Shard)
+    (h : newTemporal (pre ++ s0 :: s1 :: post) = true) : ∃ u, s0.2 = some u ∧ s1.1 = some u := by
+  have key : ∀ ou, temporalGo ou (s0 :: s1 :: post) = true → ∃ u, s0.2 = some u ∧ s1.1 = some u := by
+    intro ou hg
+    obtain ⟨_, _, _, _, hr⟩ := go_cons _ _ _ hg
+    obtain ⟨u, hu, hs1, _, _⟩ := go_cons _ _ _ hr
+    exact ⟨u, hu, hs1⟩
+  cases pre with
+  | nil =>
+    simp only [List.nil_append, newTemporal] at h
+    split at h
+    · simp at h
+    · obtain ⟨u, hu, hs1, _, _⟩ := go_cons _ _ _ h
+      exact ⟨u, hu, hs1⟩
+  | cons p pre =>
+    simp only [List.cons_append, newTemporal] at h
+    split at h
+    · simp at h
+    · obtain ⟨ou', h'⟩ := go_suffix pre (s0 :: s1 :: post) _ h
+      exact key ou' h'
+
+theorem refuse_gap_anywhere (pre post : List Shard) (s0 s1 : Shard) (h : s1.1 ≠ s0.2 ∨ s0.2 = none) :
+    newTemporal (pre ++ s0 :: s1 :: post) = false := by
+  cases hh : newTemporal (pre ++ s0 :: s1 :: post) with
+  | false => rfl
+  | true =>
+    obtain ⟨u, hu, hs1⟩ := accepted_consecutive pre post s0 s1 hh
+    rcases h with h | h
+    · rw [hu, hs1] at h; exact absurd rfl h
+    · rw [hu] at h; simp at h
+
 /-- non-vacuity: a three-shard list with an open start is accepted; instant 20 goes to shard 1 only. -/
 example : newTemporal [(none, some 10), (some 10, some 20), (some 20, none)] = true := by decide
 example : Gen.indexByDate [(none, some 10), (some 10, some 20), (some 20, none)] 20 = some 2 := by decide
 example : Gen.indexByDate [(some 0, some 10), (some 10, some 20)] 20 = none := by decide
 example : newTemporal [(some 0, some 10), (some 11, some 20)] = false := by decide
+example : newTemporal [(some 0, some 10), (some 10, some 20), (some 21, none)] = false := by decide
+example : newTemporal [(some 0, some 10), (some 10, none), (some 20, none)] = false := by decide
 
 end C18
